@@ -17,6 +17,7 @@
 -/
 import KavaVerif.Proofs.CdpExample
 import KavaVerif.Generated.CdpFacts
+import KavaVerif.Proofs.TieFnCdp
 set_option linter.unusedSimpArgs false
 set_option linter.unusedVariables false
 
@@ -256,5 +257,33 @@ theorem C04_failed_noop (E : Env) (s : St) (op : Op) (h : (step E s op).isOk = f
 
 /-- non-vacuity: drawing past the ratio fails and changes nothing -/
 example : (step exEnv exAtRatio (.draw 100 3 0 1 0)).isOk = false := by decide +kernel
+
+/-! ## source tie (regenerated)
+
+    `GoFn.Cdp.*` (Generated/FnCdp.lean) is regenerated on every run from the Go source by the function
+    translator (tools/extract/fn*.go); the theorem says that the regenerated definition IS the hand-written
+    model function the theorems above are about.  A source edit of the function re-opens this obligation.
+    Proof: Proofs/TieFnCdp.lean. -/
+
+/-- `calculatePayment` of x/cdp/keeper/draw.go (coins as amounts, equal denominations by the function's
+    CONTRACT) equals `calcPayment` and never panics, for every `owed ≥ 0` (= principal + fees of a stored CDP).
+    For `owed < 0 < payment` the Go function panics in `sdk.Coin.Sub` where the total model function returns
+    `owed`; that domain is excluded here rather than papered over. -/
+theorem C04_source_tie_calculatePayment (owed fees pay : Int) (h : 0 ≤ owed) :
+    GoFn.Cdp.calculatePayment_translated = true ∧
+    GoFn.Cdp.calculatePayment owed fees pay = Go.R.ok (calcPayment owed fees pay) :=
+  TieFn.cdp_calculatePayment owed fees pay h
+
+/-- `calculateCollateralRatio` (the bulk path of `SynchronizeInterestForRiskyCDPs`) = `c2dBulk` on the CDP's collateral
+    amount and `Principal + AccumulatedFees`, and never panics, for conversion factors in 0 … 18 (outside,
+    `sdk.NewDecFromIntWithPrec` panics) -/
+theorem C04_source_tie_calculateCollateralRatio (dp : GoFn.Cdp.DebtParam) (cp : GoFn.Cdp.CollateralParam)
+    (cdp : GoFn.Cdp.CDP) (hd : 0 ≤ dp.ConversionFactor ∧ dp.ConversionFactor ≤ 18)
+    (hc : 0 ≤ cp.ConversionFactor ∧ cp.ConversionFactor ≤ 18) :
+    GoFn.Cdp.calculateCollateralRatio_translated = true ∧
+    GoFn.Cdp.calculateCollateralRatio dp cp cdp
+      = Go.R.ok (c2dBulk cdp.Collateral cp.ConversionFactor.toNat (cdp.Principal + cdp.AccumulatedFees)
+          dp.ConversionFactor.toNat) :=
+  TieFn.cdp_calculateCollateralRatio dp cp cdp hd hc
 
 end KV.Cdp
